@@ -10,11 +10,14 @@ CATALOGUE = {
         ("int.plain", "42", True, 42), ("int.zero", "0", True, 0), ("int.negative", "-7", True, -7),
         ("int.fractional", "3.5", False, None), ("int.text", "abc", False, None), ("int.hex", "0x1F", False, None),
         ("int.point_zero", "3.0", None, None), ("int.exponent", "1e3", None, None), ("int.padded", " 7", None, None), ("int.plus", "+5", None, None),
+        ("int.1e18", "1000000000000000000", None, None), ("int.2_62", "4611686018427387904", None, None), ("int.neg_1e18", "-1000000000000000000", None, None), ("int.2_53_plus_1", "9007199254740993", None, None),
         ("int.int64_max", "9223372036854775807", None, None), ("int.beyond_int64", "9223372036854775808", False, None),
     ],
     "Number": [
         ("num.decimal", "3.14", True, 3.14), ("num.integer", "42", True, 42.0), ("num.negative", "-0.5", True, -0.5), ("num.exponent", "1e5", True, 100000.0),
         ("num.text", "abc", False, None), ("num.comma", "1,5", False, None),
+        ("num.11_decimals_tie", "5.99965727385", None, None), ("num.10_decimals", "0.1234567891", None, None), ("num.12_decimals", "2.000000000005", None, None), ("num.17_digits", "12345678.123456789", None, None),
+        ("num.near_decimal_limit", "999999999999999900", None, None), ("num.1e18", "1e18", None, None),
         ("num.nan", "NaN", None, None), ("num.inf", "inf", None, None), ("num.padded", " 1.5", None, None),
     ],
     "Boolean": [
